@@ -124,3 +124,83 @@ Theorem link_vote_grant_uptodate : forall pay s q s' (Lc : list CfgBase.entry),
   CfgRaft.uptodate Lc (abs_log pay s).
 Proof. exact vote_grant_uptodate. Qed.
 Print Assumptions link_vote_grant_uptodate.
+
+(* ================================================================ the leader side (Node/AbsLinkLeader.v) *)
+From Verif Require Import Node.Leader Node.Snap Node.Step Node.Run Node.AbsLinkLeader.
+From Verif Require Abs.Quorum Abs.CfgQuorum.
+
+(* L1: guard of SCommit.  [k] is the index onMajorityCommit hands to leader.setCommitIndex *)
+Theorem link_leader_commit_refines_SCommit : forall opt fuel s s' out l,
+  st_ldr s = Some l -> node_inv s ->
+  ld_numvoters l = num_voters (st_latest s) -> ld_voter l = is_voter (st_latest s) (st_nid s) ->
+  NoDup (map n_id (c_nodes (st_latest s))) -> 1 <= num_voters (st_latest s) ->
+  on_majority_commit opt fuel s = Done (s', out) -> st_commit s < st_commit s' ->
+  exists k Q,
+    majority_match s l = Done k /\
+    st_commit s < k /\ k <= st_lastidx s /\ ld_start l <= k /\
+    Quorum.majority (voters_of (st_latest s)) Q /\
+    (forall v, In v Q ->
+       (v = st_nid s /\ In (st_nid s) (voters_of (st_latest s))) \/
+       (exists rp, In rp (ld_repls l) /\ rp_id rp = v /\ k <= rp_match rp)) /\
+    k <= st_flushed s'.
+Proof. exact leader_commit_refines_SCommit. Qed.
+Print Assumptions link_leader_commit_refines_SCommit.
+
+Theorem link_leader_commit_own_term : forall s l k e,
+  core s ->
+  (forall e, In e (st_log s) -> ld_start l <= e_index e -> e_term e = st_term s) ->
+  ld_start l <= k -> log_get s k = Some e -> e_index e = k /\ e_term e = st_term s.
+Proof. exact leader_commit_own_term. Qed.
+Print Assumptions link_leader_commit_own_term.
+
+(* bridge from Node/ConfigFacts.adjacent to Abs/CfgQuorum.near *)
+Theorem link_adjacent_near : forall c c',
+  ConfigFacts.adjacent c c' -> NoDup (voters_of c) -> NoDup (voters_of c') ->
+  CfgQuorum.near (voters_of c) (voters_of c').
+Proof. exact adjacent_near. Qed.
+Print Assumptions link_adjacent_near.
+
+Theorem link_derived_config_near : forall c id v a,
+  NoDup (map n_id (c_nodes c)) ->
+  let c1 := cfg_set_node c (with_voter_action (cfg_node0 c id) v a) in
+  let c2 := cfg_del_node c id in
+  NoDup (voters_of c) /\
+  (NoDup (map n_id (c_nodes c1)) /\ NoDup (voters_of c1) /\ CfgQuorum.near (voters_of c) (voters_of c1)) /\
+  (NoDup (map n_id (c_nodes c2)) /\ NoDup (voters_of c2) /\ CfgQuorum.near (voters_of c) (voters_of c2)).
+Proof. exact derived_config_near. Qed.
+Print Assumptions link_derived_config_near.
+
+(* L2: guards of SReconfig for the entry checkConfigAction appends (configuration c', derived from c) *)
+Theorem link_reconfig_refines_SReconfig : forall opt fuel s tid c id s' out l,
+  st_ldr s = Some l -> NoDup (map n_id (c_nodes c)) ->
+  check_config_action opt fuel s tid c id = Done (s', out) -> st_lastidx s < st_lastidx s' ->
+  exists f s1 c',
+    do_change_config opt f s1 tid c' = Done (s', out) /\
+    st_lastidx s1 = st_lastidx s /\ st_latest s1 = st_latest s /\ st_commit s1 = st_commit s /\
+    configs_committed s = true /\ ld_start l <= st_commit s /\ ld_tr_active l = false /\
+    NoDup (voters_of c) /\ NoDup (voters_of c') /\ CfgQuorum.near (voters_of c) (voters_of c').
+Proof. exact reconfig_refines_SReconfig. Qed.
+Print Assumptions link_reconfig_refines_SReconfig.
+
+Theorem link_reconfig_refines_SReconfig_latest : forall opt fuel s tid id s' out l,
+  st_ldr s = Some l -> NoDup (map n_id (c_nodes (st_latest s))) ->
+  (configs_committed s = true -> c_index (st_latest s) < ld_start l \/ c_index (st_latest s) <= st_commit s) ->
+  check_config_action opt fuel s tid (st_latest s) id = Done (s', out) -> st_lastidx s < st_lastidx s' ->
+  exists f s1 c',
+    do_change_config opt f s1 tid c' = Done (s', out) /\
+    c_index (st_latest s) <= st_commit s /\ ld_start l <= st_commit s /\
+    NoDup (voters_of (st_latest s)) /\ NoDup (voters_of c') /\
+    CfgQuorum.near (voters_of (st_latest s)) (voters_of c').
+Proof. exact reconfig_refines_SReconfig_latest. Qed.
+Print Assumptions link_reconfig_refines_SReconfig_latest.
+
+(* L2 for a configuration submitted by the user *)
+Theorem link_user_reconfig_refines_SReconfig : forall opt s tid c s' out l,
+  st_ldr s = Some l -> tid <> 0 ->
+  NoDup (map n_id (c_nodes c)) -> NoDup (map n_id (c_nodes (st_latest s))) ->
+  on_change_config opt s tid c = Done (s', out) -> st_lastidx s < st_lastidx s' ->
+  configs_committed s = true /\ ld_start l <= st_commit s /\
+  NoDup (voters_of (st_latest s)) /\ NoDup (voters_of c) /\
+  CfgQuorum.near (voters_of (st_latest s)) (voters_of c).
+Proof. exact user_reconfig_refines_SReconfig. Qed.
+Print Assumptions link_user_reconfig_refines_SReconfig.
